@@ -120,11 +120,25 @@ CLAIMED = {
         "note": ("trusted: cbmc 6.11.0; the loops over dz/dy/dx and the index triples [z+dz][y+dy][x+dx] are matched syntactically "
                  "(counted static facts), not proved; operand renaming rules of props/c09.py"),
     },
+    "C20": {
+        "text": ("partial - the index maps of the detector-pair ('fan') representation (ML_norm.cxx): (a) FanProjData::is_in_data is true exactly for the "
+                 "pairs whose second ring lies in the stored half [ra, ra+max_ring_diff] and whose second detector lies in the fan of the first modulo "
+                 "the ring size; (b) FanProjData::operator() (const and non-const) addresses, for every pair that is in the data in one of the two "
+                 "orders, an element inside the index ranges the constructor builds (no out-of-range access), namely the pair's own cell for ra<rb and "
+                 "the exchanged pair's cell otherwise; (c) lemmas over that contract, per ring size: a pair and its exchange in different rings share "
+                 "one cell, two pairs that are neither equal nor each other's exchange never share a cell (lossless); (d) the virtual-crystal ('gap') "
+                 "index maps of make_fan_data_remove_gaps_help and set_fan_data_add_gaps_help (statement kernels, per block geometry): a pair is used "
+                 "iff all four crystals are physical, new index = x - (x / C) * V; lemma: the renumbering of physical crystals is a bijection onto "
+                 "[0, blocks*(C-V)) preserving block and position in block - both functions use the same map, so removing and re-adding gaps is "
+                 "lossless. Not decided: apply/un-apply of efficiencies / geometric / block factors (float), fixed point and KL descent of the ML "
+                 "iterations, the loops around the maps, the FanProjData constructor (index ranges assumed from reading it)."),
+        "note": ("trusted: cbmc 6.11.0 + kissat; FanProjData index ranges read from the constructor (assumed contract of the readers); bin <-> detector "
+                 "pair maps are C01"),
+    },
 }
 
 _PENDING = "claimed in DESIGN.md but the check is not built yet in this commit; will move to checks when it exists"
 NOT_APPLICABLE = {
-    "C20": _PENDING,
     "C04": "linearity/adjointness/additivity are equalities up to floating-point reassociation between long accumulations through virtual projector classes; bit-precise CBMC cannot state 'up to rounding' compositionally nor close the Siddon/interpolation loops; no leaf contract decides it",
     "C05": "value/gradient/Hessian are float sums over all bins with log(), reached only through virtual objective-function/projector objects; CBMC's libm model leaves log unconstrained; element-wise kernels do not decide the textbook equality",
     "C07": "EM update is spread over array expressions, back projection and sensitivity caches behind virtual calls; monotonicity/count preservation are real-analysis facts that do not survive bit-precise float semantics; the schedule part of restartability is decided under C06",
